@@ -987,9 +987,9 @@ func walkSpec(s *astSpec, root int, script string) (string, bool) {
 		pos := 2*n + 1
 		if entering {
 			pos = 2 * n
-			ev = append(ev, byte('0'+n), 'e')
+			ev = append(ev, astIdChars[n], 'e')
 		} else {
-			ev = append(ev, byte('0'+n), 'l')
+			ev = append(ev, astIdChars[n], 'l')
 		}
 		st, e := walkAnswer(script[pos])
 		if e || st == ast.WalkStop {
@@ -1020,7 +1020,7 @@ func walkSpec(s *astSpec, root int, script string) (string, bool) {
 func implWalk(c Case) ImplResult {
 	var r ImplResult
 	n, err := strconv.Atoi(c.Args[0])
-	if err != nil || n < 1 || n > 9 {
+	if err != nil || n < 1 || n > 36 {
 		panic("bad pool size " + c.Args[0])
 	}
 	ops := astParseOps(c.Args[1], n)
@@ -1057,9 +1057,9 @@ func implWalk(c Case) ImplResult {
 		pos := 2*id + 1
 		if entering {
 			pos = 2 * id
-			ev = append(ev, byte('0'+id), 'e')
+			ev = append(ev, astIdChars[id], 'e')
 		} else {
-			ev = append(ev, byte('0'+id), 'l')
+			ev = append(ev, astIdChars[id], 'l')
 		}
 		if script[pos] != 'c' {
 			consulted = true
@@ -1168,6 +1168,35 @@ func genWalk(tier string, rng *RNG, emit func(Case)) {
 				emit(Case{Op: "run", Args: []string{strconv.Itoa(n), ops, "0", script}})
 			})
 		})
+	}
+	// DEEP trees: a chain of 30..35 nested nodes (a walker with an explicit stack grows it at some depth; a recursive one has
+	// a frame per level) with side branches, walked from the root and from inner nodes under random scripts
+	ndeep := 40
+	if thorough {
+		ndeep = 1500
+	}
+	for i := 0; i < ndeep; i++ {
+		n := 31 + rng.Intn(6)
+		chain := n - 1 - rng.Intn(4) // nodes 0..chain form a chain; the rest hang off random chain nodes
+		var ops []astOp
+		for c := 1; c <= chain; c++ {
+			ops = append(ops, astOp{k: 'a', p: c - 1, v: -1, c: c})
+		}
+		for c := chain + 1; c < n; c++ {
+			ops = append(ops, astOp{k: 'a', p: rng.Intn(chain + 1), v: -1, c: c})
+		}
+		script := make([]byte, 2*n)
+		for j := range script {
+			script[j] = 'c'
+			if i%3 != 0 && !rng.Chance(93) {
+				script[j] = walkAlts[rng.Intn(len(walkAlts))]
+			}
+		}
+		root := 0
+		if i%5 == 4 {
+			root = rng.Intn(4)
+		}
+		emit(Case{Op: "run", Args: []string{strconv.Itoa(n), astJoin(ops), astDig(root), string(script)}})
 	}
 	cmpTab := "-"
 	for i := 0; i < nrand; i++ {
